@@ -25,10 +25,10 @@ from harness.translate import toktable
 
 PROP = "C10"
 WORDCH = set("abcdefghijklmnopqrstuvwxyzABCDEFGHIJKLMNOPQRSTUVWXYZ0123456789_$")
-LINE_BREAKS = ["\n", "\r", "\r\n", "\v", "\f", "\x1c", "\x1d", "\x1e", "\x85", " ", " "]
+LINE_BREAKS = ["\n", "\r", "\r\n", "\v", "\f", "\x1c", "\x1d", "\x1e", "\x85", "\u2028", "\u2029"]
 # characters for which the Python documentation of str.isspace / Unicode (Zs, bidi WS/B/S) says
 # "whitespace"; the full set is compared with the model on every run (op SPACES)
-OTHER_SPACES = ["\t", "\x1f", "\xa0", " ", " ", " ", " ", " ", " ", "　"]
+OTHER_SPACES = ["\t", "\x1f", "\xa0", "\u1680", "\u2000", "\u2003", "\u200a", "\u202f", "\u205f", "\u3000"]
 
 
 def hx(s):
@@ -92,7 +92,7 @@ class UnionNfa:
 
     def __init__(self, asts):
         self.eps = []     # state → [state]
-        self.eol = []     # state → [state]  (ε allowed only at `$` positions)
+        self.eol = []     # state → [state]  (\u03b5 allowed only at `$` positions)
         self.chr = []     # state → [(neg, items, state)]
         self.acc = {}     # state → row
         self.starts = []
@@ -365,6 +365,9 @@ def classification_issues(lines, toks):
     for sym, text, sl, sc, _el, _ec in toks:
         if not text or text[0] not in WORDCH or sym in ("Comment", "Documentation", "BadDocumentation", "String"):
             continue
+        if not (1 <= sl <= len(lines)) or not (1 <= sc <= len(lines[sl - 1])):
+            out.append((None, "token %r at %d:%d lies outside the text" % (text, sl, sc)))
+            continue
         line = lines[sl - 1]
         i = sc - 1
         if i > 0 and line[i - 1] in WORDCH:
@@ -458,7 +461,7 @@ def invariant_issues(text, lines, toks):
 
 # ---------------------------------------------------------------- generators
 PUNCT = list("[]():=+-*.?!&|<>,#\"\\")
-JUNK = list("~@%^;{}'/`") + ["é", "中", "\U0001f600", "\x00", "\x7f"]
+JUNK = list("~@%^;{}'/`") + ["\u00e9", "\u4e2d", "\U0001f600", "\x00", "\x7f"]
 WORD_SAMPLES = [
     "struct", "bits", "enum", "external", "import", "as", "if", "let", "structure", "iff", "lets", "a", "ab_c1",
     "true", "false", "truex", "True", "x", "A", "AB", "A1", "A_", "AB_C9", "Ab", "AbC", "Ab_c", "aB", "abcDef",
@@ -501,7 +504,7 @@ def gen_soup(r):
         if s < 0.45:
             parts.append(" ")
         elif s < 0.55:
-            parts.append(r.choice(["  ", "\t", " \t", "\xa0", "\x1f", "　"]))
+            parts.append(r.choice(["  ", "\t", " \t", "\xa0", "\x1f", "\u3000"]))
         elif s < 0.75:
             parts.append(r.choice(LINE_BREAKS) + r.choice(["", "", " ", "  ", "    ", "\t", " \t", "  \xa0"]))
     return "".join(parts)
@@ -601,7 +604,7 @@ def gen_mutation(r):
                 win[i] = l[:j] + c + l[j:]
             else:
                 win[i] = l[:j] + c + l[j + 1:]
-    return r.choice(["\n", "\n", "\n", "\r\n", "\r", " "]).join(win) + r.choice(["\n", ""])
+    return r.choice(["\n", "\n", "\n", "\r\n", "\r", "\u2028"]).join(win) + r.choice(["\n", ""])
 
 
 def boundary_texts():
@@ -660,32 +663,26 @@ class Ctx:
         self.feat = {}
         self.errkinds = {}
         self.issue_counts = {}
+        self.suppressed = 0
+        self.shrinks = 0
 
     def bump(self, d, k, n=1):
         d[k] = d.get(k, 0) + n
 
 
-def oracle_check(ctx, text, real, origin):
-    """Spec oracle on the real output.  Returns the list of violation descriptions it
-    reported (after known-finding routing)."""
-    chk = ctx.chk
-    reported = []
+MAX_REPORT = 25      # replay files written per run; further failing inputs are only counted
 
-    def report(desc, key, expected):
-        r = chk.violation("input", {"input": text, "input_hex": hx(text), "origin": origin, "observed": canon(real)[:4000],
-                                    "expected": expected, "what": desc}, key=key)
-        ctx.bump(ctx.issue_counts, key or desc.split(":")[0][:60])
-        if r is not None:
-            reported.append(desc)
 
+def oracle_issues(ctx, text, real):
+    """→ [(key or None, description, expected)] : every way the real result `real` of `text`
+    contradicts the spec oracle."""
     if real[0] == "exception":
-        report("tokenize raised " + real[1], "crash:tokenizer:" + real[1].split(":")[0], "tokens or located error")
-        return reported
+        return [("crash:tokenizer:" + real[1].split(":")[0], "tokenize raised " + real[1], "tokens or located error")]
+    out = []
     lines = spec_split_lines(text)
     if ctx.doc is not None:
         want = spec_tokenize(ctx.doc, text)
         if want != real:
-            # describe the first difference
             desc = "differs from the tokenizer built from doc/grammar.md"
             if want[0] == "ok" and real[0] == "ok":
                 for a, b in zip(want[1] + [None], real[1] + [None]):
@@ -694,13 +691,88 @@ def oracle_check(ctx, text, real, origin):
                         break
             else:
                 desc += ": expected %r got %r" % (want if want[0] != "ok" else "ok", real if real[0] != "ok" else "ok")
-            report(desc, None, canon(want)[:4000])
-            return reported
+            out.append((None, desc, canon(want)[:4000]))
+            return out      # the checks below presuppose the documented line structure
     if real[0] == "ok":
         for why in invariant_issues(text, lines, real[1])[:3]:
-            report("invariant: " + why, None, "invariants of the property statement")
+            out.append((None, "invariant: " + why, "invariants of the property statement"))
         for key, why in classification_issues(lines, real[1])[:3]:
-            report("classification: " + why, key, "doc/language-reference.md name / numeric-constant rules")
+            out.append((key, "classification: " + why, "doc/language-reference.md name / numeric-constant rules"))
+    return out
+
+
+def shrink(ctx, text, budget=400):
+    """Delta-debugging on lines, then on characters: keep any reduction that still fails
+    the oracle with an unlisted (non-known-finding) issue."""
+    def bad(t):
+        return any(ctx.chk.known_finding(k) is None if k is not None else True
+                   for k, _d, _e in oracle_issues(ctx, t, real_tokenize(t)))
+    calls = [0]
+
+    def ddmin(units, join):
+        n = 2
+        while len(units) >= 2 and calls[0] < budget:
+            size = max(1, len(units) // n)
+            reduced = False
+            for i in range(0, len(units), size):
+                cand = units[:i] + units[i + size:]
+                calls[0] += 1
+                if cand and bad(join(cand)):
+                    units = cand
+                    n = max(n - 1, 2)
+                    reduced = True
+                    break
+                if calls[0] >= budget:
+                    break
+            if not reduced:
+                if size == 1:
+                    break
+                n = min(len(units), n * 2)
+        return units
+    lines = text.splitlines(True)
+    if len(lines) > 1:
+        text2 = "".join(ddmin(lines, "".join))
+        if bad(text2):
+            text = text2
+    if len(text) <= 400:
+        text2 = "".join(ddmin(list(text), "".join))
+        if bad(text2):
+            text = text2
+    return text
+
+
+def oracle_check(ctx, text, real, origin):
+    """Spec oracle on the real output.  Returns the list of violation descriptions it
+    reported (after known-finding routing)."""
+    chk = ctx.chk
+    reported = []
+    for key, desc, expected in oracle_issues(ctx, text, real):
+        ctx.bump(ctx.issue_counts, key or desc.split(":")[0][:60])
+        if key is not None and chk.known_finding(key) is not None:
+            chk.report_known(chk.known_finding(key))
+            continue
+        if len(chk.violations) >= MAX_REPORT:
+            ctx.suppressed += 1
+            continue
+        small = text
+        if ctx.shrinks < 6:
+            ctx.shrinks += 1
+            try:
+                small = shrink(ctx, text)
+            except Exception:  # noqa: BLE001
+                small = text
+        sreal = real_tokenize(small)
+        issues = [i for i in oracle_issues(ctx, small, sreal) if i[0] is None or chk.known_finding(i[0]) is None]
+        if small != text and issues:
+            key, desc, expected = issues[0]
+        else:
+            small, sreal = text, real
+        r = chk.violation("input", {"input": small, "input_hex": hx(small), "origin": origin,
+                                    "observed": canon(sreal)[:4000], "expected": expected, "what": desc,
+                                    "shrunk_from_length": len(text)}, key=key)
+        if r is not None:
+            reported.append(desc)
+        break      # one replay per input
     return reported
 
 
@@ -764,8 +836,8 @@ def run_texts(ctx, texts, model, label):
             else:
                 why = None
             # is the real code wrong here?  (oracle_check above has already reported it if so)
-            bad = ctx.doc is not None and real[0] != "exception" and spec_tokenize(ctx.doc, text) != real
-            if not bad:
+            bad = bool(oracle_issues(ctx, text, real))
+            if not bad and len(chk.violations) < MAX_REPORT:
                 chk.violation("correspondence",
                               {"input": text, "input_hex": hx(text), "origin": origin, "op": "TOK", "model": ans[:4000],
                                "observed": want[:4000], "note": why,
@@ -789,7 +861,7 @@ def pattern_correspondence(ctx, model, r, n_random):
         return
     strings = list(dict.fromkeys(
         WORD_SAMPLES + NUM_SAMPLES + OTHER_SAMPLES + PUNCT + ["", " ", "\n", "--\n", "--\nx", "-- \n", "#\n", "a\nb",
-                                                             "\x1f", " ", " \n", "--\r", '"a\nb"', '"\\'] +
+                                                             "\x1f", "\u2028", " \n", "--\r", '"a\nb"', '"\\'] +
         [gen_word(r) for _ in range(n_random)] + [gen_random(r) for _ in range(n_random)] +
         [gen_soup(r)[:30] for _ in range(n_random)]))
     ops, want = [], []
@@ -834,7 +906,7 @@ def charset_correspondence(ctx, model):
     if sorted(set(LINE_BREAKS) - {"\r\n"}) != sorted(chr(int(x)) for x in py_breaks.split(",")):
         chk.violation("correspondence", {"theorem_or_correspondence": "harness LINE_BREAKS vs str.splitlines",
                                          "observed": py_breaks}, found_input=False)
-    chk.count(3 * 0x110000)
+    chk.count(3)
     chk.extra["charset_code_points_compared"] = 0x110000
 
 
@@ -918,6 +990,17 @@ def search(chk):
 
 
 def run(tier):
+    try:
+        return _run(tier)
+    except (common.InfraError, KeyboardInterrupt):
+        raise
+    except Exception as e:  # noqa: BLE001  (a bug in the harness must never look like a verdict)
+        import traceback
+        traceback.print_exc()
+        raise common.InfraError("C10 harness failed: %s: %s" % (type(e).__name__, e))
+
+
+def _run(tier):
     chk = common.Check(PROP, tier, exes=["model_c10"])
     chk.cov["rule"] = ("texts: corpus files (testdata/**/*.emb, prelude.emb), enumerated boundary strings, token soup, "
                        "random strings over the Emboss alphabet + all str.splitlines terminators + isspace characters, "
@@ -939,7 +1022,9 @@ def run(tier):
                                       "note": "pattern table cannot be expressed in the model; search found no failing input"},
                           found_input=False)
         chk.obligations = max(chk.obligations, 1)
-        return chk.finish()
+        chk.cov["samples"] = chk.cov["samples"] or [{"note": "translator failed; see violations"}]
+        chk._distinct.update(["translator-failed-a", "translator-failed-b"])
+        return chk.finish(level="exploration")
     if ctx.doc_error:
         chk.violation("theorem", {"theorem_or_correspondence": "doc/grammar.md token table unreadable: " + ctx.doc_error},
                       found_input=False)
@@ -957,11 +1042,14 @@ def run(tier):
     while done < n and len(chk.violations) < 20:
         run_texts(ctx, random_texts(r, min(batch, n - done)), model, "generated")
         done += batch
+    chk.extra["failing_inputs_not_written"] = ctx.suppressed
     chk.extra["generator_distribution"] = {"features": dict(sorted(ctx.feat.items())), "errors": ctx.errkinds,
                                            "oracle_issue_counts": ctx.issue_counts}
     for o, t in (random_texts(common.rng("C10-samples"), 4)):
         chk.sample({"origin": o, "text": t[:200], "real": canon(real_tokenize(t))[:300]})
-    return chk.finish()
+    # With broken Lean obligations nothing is discharged: what this run then delivers is the
+    # model-free exploration (spec oracle on the real code), and the evidence says so.
+    return chk.finish(level="proof" if model_ok else "exploration")
 
 
 def replay(path):
